@@ -251,6 +251,10 @@ def assignment_extremes_bounded_instance():
             store = store | (rng.rand(Fm, K, T) < 0.2)                                   # overlapping supports
         mdt = [bool, np.int8, np.float64][(inp['seed'] // 2) % 3]
         metric = ['multiply', 'cos', 'euclidean'][(inp['seed'] // 5) % 3]
+        if (inp['seed'] // 7) % 2 and mdt is np.float64:
+            # soft posteriors; the reference below is an exactly shuffled copy (distance exactly zero for the matching rows)
+            store = rng.uniform(0.05, 1.0, size=(Fm, K, T))
+            store /= store.sum(1, keepdims=True)
         mask = np.transpose(store.astype(mdt), (1, 0, 2))                               # (K, F, T) view
         ref = np.ascontiguousarray(mask[rng.permutation(K)])
         try:
